@@ -43,6 +43,7 @@ import (
 	"github.com/superfly/litefs"
 	lhttp "github.com/superfly/litefs/http"
 	"github.com/superfly/litefs/verifharness/core"
+	"github.com/superfly/litefs/verifharness/faults"
 	"github.com/superfly/litefs/verifharness/sim"
 	"github.com/superfly/ltx"
 	"golang.org/x/net/http2"
@@ -1391,6 +1392,8 @@ func main() {
 		rep.Eval(1)
 		rep.Violate("C20.M2-no-panic", "M2-no-panic/unattributed", map[string]any{"log": un}, nil)
 	}
+	// failure paths (spec/Faults.tla): every call of the operation through the OS interface fails once
+	faults.Run(rep, args, faults.Select{Ops: []string{"halt", "import"}, Monitors: []string{"locks"}})
 	rep.Finish()
 }
 
